@@ -5,6 +5,8 @@ A state is reached by a history of operations; an operation is a list whose last
 vector of internal random choices taken while applying it:
   ['D', ch]            dispatch one request
   ['C', serial, ch]    complete the oldest outstanding request on stub channel `serial`
+  ['CX', serial, ch]   the same, but the sink above the balancer raises while it handles the reply
+  ['CD', serial, ch]   the same, but the sink above the balancer dispatches the next request from inside its reply handler
   ['Down', e, ch] / ['Up', e, ch]     flip the channel of active member e between Open and Closed
   ['Join', e, ch] / ['Leave', e, ch]  server-set notifications (duplicates / unknown members when enabled)
   ['Adv', k, ch]       advance virtual time by ADV[k], firing due timers
@@ -195,6 +197,31 @@ class LbWorld(object):
     r['done'] = True
     r['stack'].AsyncProcessResponseMessage(MethodReturnMessage(return_value='r%d' % r['rid']))
 
+  class UpstreamError(Exception):
+    pass
+
+  def _op_CX(self, serial):
+    def boom(context, msg):
+      self.term.on_response = None
+      raise LbWorld.UpstreamError('sink above the balancer failed')
+    self.term.on_response = boom
+    try:
+      self._op_C(serial)
+    except LbWorld.UpstreamError:
+      pass
+    finally:
+      self.term.on_response = None
+
+  def _op_CD(self, serial):
+    def again(context, msg):
+      self.term.on_response = None
+      self._op_D()
+    self.term.on_response = again
+    try:
+      self._op_C(serial)
+    finally:
+      self.term.on_response = None
+
   def _op_Down(self, e):
     from scales.constants import ChannelState
     n = next(n for n in self.heap_nodes() if self.ep_idx(n.endpoint) == e)
@@ -278,6 +305,10 @@ class LbWorld(object):
         if not r['done'] and r['serial'] is not None and r['serial'] not in seen:
           seen.add(r['serial'])
           ops.append(['C', r['serial']])
+          if 'CX' in alpha:
+            ops.append(['CX', r['serial']])
+          if 'CD' in alpha:
+            ops.append(['CD', r['serial']])
     if 'Down' in alpha:
       for n in self.heap_nodes():
         if self.is_open(n.channel) and len(self.downed) < p.get('max_down', 2):
@@ -346,6 +377,11 @@ class LbWorld(object):
       s = n.channel.serial
       in_heap[s] = n
       self.nodes[s] = n
+    # --- C05: a member is served by a channel that was created for that member's endpoint
+    for s, n in in_heap.items():
+      if n.channel.endpoint != n.endpoint:
+        self.v('C05.endpoint', 'after %r: member ep%d is served by a channel that connects to ep%d'
+               % (op, self.ep_idx(n.endpoint), self.ep_idx(n.channel.endpoint)), kind=self.kind)
     # --- C04: load conservation for every node ever seen
     for s, n in self.nodes.items():
       k = (n.load - HB.Idle) % HB.Penalty
